@@ -1,2 +1,185 @@
-/- C04 property theorems (under construction) -/
-import Decaf.Model.Exec
+/-
+C04 — Every form of addition, subtraction and negation computes the group law.
+
+Model side: `Ext.addMin / doubleMin / neg / subMin` are the formulas of `min_curve/element.rs`; `Ext.addRef …` is the
+reference affine law by which the arkworks backend is modelled.  `ERepr c P` says that the quadruple `c` of canonical
+naturals represents the curve point `P : E` (E = the twisted Edwards curve over ZMod q with its group law proved in
+`Spec/Edwards`).  All statements are for *every* operand: identity, T2, P with -P, P with itself, both coset members
+(the formulas are complete).  The operator forms of the Rust API forward to these functions; that forwarding is
+validated by the correspondence run (every form × every element class), see DESIGN.md §6 C04.
+-/
+import Decaf.Lemmas.ModelCurve
+
+namespace C04
+open Model Edwards
+
+/-- minimal backend: HWCD addition computes the group law -/
+theorem addMin_correct {c1 c2 : Ext} {p1 p2 : E} (h1 : ERepr c1 p1) (h2 : ERepr c2 p2) :
+    ERepr (Ext.addMin c1 c2) (p1 + p2) := addMin_repr h1 h2
+
+theorem doubleMin_correct {c : Ext} {p : E} (h : ERepr c p) : ERepr (Ext.doubleMin c) (2 • p) := by
+  rw [two_nsmul]; exact doubleMin_repr h
+
+theorem neg_correct {c : Ext} {p : E} (h : ERepr c p) : ERepr (Ext.neg c) (-p) := neg_repr h
+
+theorem subMin_correct {c1 c2 : Ext} {p1 p2 : E} (h1 : ERepr c1 p1) (h2 : ERepr c2 p2) :
+    ERepr (Ext.subMin c1 c2) (p1 - p2) := subMin_repr h1 h2
+
+/-- arkworks backend (modelled by the reference affine law) -/
+theorem addRef_correct {c1 c2 : Ext} {p1 p2 : E} (h1 : ERepr c1 p1) (h2 : ERepr c2 p2) :
+    ERepr (Ext.addRef c1 c2) (p1 + p2) := addRef_repr h1 h2
+
+theorem doubleRef_correct {c : Ext} {p : E} (h : ERepr c p) : ERepr (Ext.doubleRef c) (2 • p) := by
+  rw [two_nsmul]; exact doubleRef_repr h
+
+theorem subRef_correct {c1 c2 : Ext} {p1 p2 : E} (h1 : ERepr c1 p1) (h2 : ERepr c2 p2) :
+    ERepr (Ext.subRef c1 c2) (p1 - p2) := subRef_repr h1 h2
+
+/-- two representatives of the same point compare equal -/
+theorem eq_of_repr_same {c c' : Ext} {p : E} (h : ERepr c p) (h' : ERepr c' p) : Ext.eq c c' = true :=
+  (eq_iff_coset h h').mpr (Point.Coset.refl p)
+
+/-- both backends compute the same element -/
+theorem backends_agree_add {c1 c2 : Ext} {p1 p2 : E} (h1 : ERepr c1 p1) (h2 : ERepr c2 p2) :
+    Ext.eq (Ext.addMin c1 c2) (Ext.addRef c1 c2) = true :=
+  eq_of_repr_same (addMin_repr h1 h2) (addRef_repr h1 h2)
+
+/-! ### group laws, observed through the library's equality -/
+
+theorem add_comm_obs {c1 c2 : Ext} {p1 p2 : E} (h1 : ERepr c1 p1) (h2 : ERepr c2 p2) :
+    Ext.eq (Ext.addMin c1 c2) (Ext.addMin c2 c1) = true := by
+  have := addMin_repr h2 h1
+  rw [add_comm] at this
+  exact eq_of_repr_same (addMin_repr h1 h2) this
+
+theorem add_assoc_obs {c1 c2 c3 : Ext} {p1 p2 p3 : E} (h1 : ERepr c1 p1) (h2 : ERepr c2 p2) (h3 : ERepr c3 p3) :
+    Ext.eq (Ext.addMin (Ext.addMin c1 c2) c3) (Ext.addMin c1 (Ext.addMin c2 c3)) = true := by
+  have := addMin_repr h1 (addMin_repr h2 h3)
+  rw [← add_assoc] at this
+  exact eq_of_repr_same (addMin_repr (addMin_repr h1 h2) h3) this
+
+theorem identity_neutral {c : Ext} {p : E} (h : ERepr c p) : Ext.eq (Ext.addMin c Ext.identity) c = true := by
+  have := addMin_repr h identity_repr
+  rw [add_zero] at this
+  exact eq_of_repr_same this h
+
+theorem sub_self_is_identity {c : Ext} {p : E} (h : ERepr c p) :
+    Ext.eq (Ext.subMin c c) Ext.identity = true := by
+  have := subMin_repr h h
+  rw [sub_self] at this
+  exact eq_of_repr_same this identity_repr
+
+theorem add_neg_is_identity {c : Ext} {p : E} (h : ERepr c p) :
+    Ext.eq (Ext.addMin c (Ext.neg c)) Ext.identity = true := by
+  have := addMin_repr h (neg_repr h)
+  rw [add_neg_cancel] at this
+  exact eq_of_repr_same this identity_repr
+
+theorem double_eq_add_self {c : Ext} {p : E} (h : ERepr c p) :
+    Ext.eq (Ext.doubleMin c) (Ext.addMin c c) = true :=
+  eq_of_repr_same (doubleMin_repr h) (addMin_repr h h)
+
+/-- an operand may be replaced by the other member of its coset (or any other representative) -/
+theorem add_respects_coset {c1 c1' c2 c2' : Ext} {p1 p1' p2 p2' : E}
+    (h1 : ERepr c1 p1) (h1' : ERepr c1' p1') (h2 : ERepr c2 p2) (h2' : ERepr c2' p2')
+    (e1 : Ext.eq c1 c1' = true) (e2 : Ext.eq c2 c2' = true) :
+    Ext.eq (Ext.addMin c1 c2) (Ext.addMin c1' c2') = true :=
+  (eq_iff_coset (addMin_repr h1 h2) (addMin_repr h1' h2')).mpr
+    (Point.Coset.add ((eq_iff_coset h1 h1').mp e1) ((eq_iff_coset h2 h2').mp e2))
+
+/-! ### straight-line programs over both backends -/
+
+inductive Expr where
+  | leaf (i : ℕ)
+  | add (a b : Expr)
+  | sub (a b : Expr)
+  | neg (a : Expr)
+  | dbl (a : Expr)
+
+def evalMin (env : ℕ → Ext) : Expr → Ext
+  | .leaf i => env i
+  | .add a b => Ext.addMin (evalMin env a) (evalMin env b)
+  | .sub a b => Ext.subMin (evalMin env a) (evalMin env b)
+  | .neg a => Ext.neg (evalMin env a)
+  | .dbl a => Ext.doubleMin (evalMin env a)
+
+def evalRef (env : ℕ → Ext) : Expr → Ext
+  | .leaf i => env i
+  | .add a b => Ext.addRef (evalRef env a) (evalRef env b)
+  | .sub a b => Ext.subRef (evalRef env a) (evalRef env b)
+  | .neg a => Ext.neg (evalRef env a)
+  | .dbl a => Ext.doubleRef (evalRef env a)
+
+def denote (env : ℕ → E) : Expr → E
+  | .leaf i => env i
+  | .add a b => denote env a + denote env b
+  | .sub a b => denote env a - denote env b
+  | .neg a => -denote env a
+  | .dbl a => denote env a + denote env a
+
+theorem evalMin_repr (envC : ℕ → Ext) (envP : ℕ → E) (h : ∀ i, ERepr (envC i) (envP i)) (e : Expr) :
+    ERepr (evalMin envC e) (denote envP e) := by
+  induction e with
+  | leaf i => exact h i
+  | add a b iha ihb => exact addMin_repr iha ihb
+  | sub a b iha ihb => exact subMin_repr iha ihb
+  | neg a ih => exact neg_repr ih
+  | dbl a ih => exact doubleMin_repr ih
+
+theorem evalRef_repr (envC : ℕ → Ext) (envP : ℕ → E) (h : ∀ i, ERepr (envC i) (envP i)) (e : Expr) :
+    ERepr (evalRef envC e) (denote envP e) := by
+  induction e with
+  | leaf i => exact h i
+  | add a b iha ihb => exact addRef_repr iha ihb
+  | sub a b iha ihb => exact subRef_repr iha ihb
+  | neg a ih => exact neg_repr ih
+  | dbl a ih => exact doubleRef_repr ih
+
+/-- every program gives the same element in both backends, and it is the group-theoretic value -/
+theorem programs_agree (envC : ℕ → Ext) (envP : ℕ → E) (h : ∀ i, ERepr (envC i) (envP i)) (e : Expr) :
+    Ext.eq (evalMin envC e) (evalRef envC e) = true :=
+  eq_of_repr_same (evalMin_repr envC envP h e) (evalRef_repr envC envP h e)
+
+/-- `Sum`: folding from the identity computes the sum of the denotations -/
+theorem sum_correct (cs : List Ext) (ps : List E) (h : List.Forall₂ ERepr cs ps) :
+    ERepr (cs.foldl Ext.addMin Ext.identity) ps.sum := by
+  suffices ∀ (acc : Ext) (pa : E), ERepr acc pa → ERepr (cs.foldl Ext.addMin acc) (pa + ps.sum) by
+    simpa using this _ _ identity_repr
+  induction h with
+  | nil => intro acc pa ha; simpa using ha
+  | cons hab _ ih =>
+    intro acc pa ha
+    simp only [List.foldl_cons, List.sum_cons]
+    rw [← add_assoc]
+    exact ih _ _ (addMin_repr ha hab)
+
+/-! ### non-vacuity: the generator is a representative of a point of E, with Z ≠ 1 after one doubling -/
+
+def genPoint : E := ⟨(C17.bx : Fq), (C17.by' : Fq), by
+  have h : C17.onCurve C17.bx C17.by' = true := by decide +kernel
+  unfold C17.onCurve at h
+  rw [beq_iff_eq] at h
+  have := congrArg (Nat.cast : ℕ → Fq) h
+  simp only [cast_fadd, cast_fmul, cast_fsq, Nat.cast_one] at this
+  unfold OnCurve
+  have ha : (C17.coeffA : Fq) = -1 := cast_cA
+  have hd : params.d = (C17.coeffD : Fq) := rfl
+  rw [ha] at this
+  rw [hd]
+  linear_combination this⟩
+
+theorem gen_repr : ERepr ⟨C17.bx, C17.by', 1, C17.bt⟩ genPoint := by
+  have h : C17.bt = fmul q C17.bx C17.by' := by decide +kernel
+  refine ⟨?_, ?_, ?_, ?_⟩
+  · show ((1 : ℕ) : Fq) ≠ 0
+    rw [Nat.cast_one]; exact one_ne_zero
+  · show (C17.bx : Fq) = (C17.bx : Fq) * ((1 : ℕ) : Fq)
+    rw [Nat.cast_one, mul_one]
+  · show (C17.by' : Fq) = (C17.by' : Fq) * ((1 : ℕ) : Fq)
+    rw [Nat.cast_one, mul_one]
+  · show (C17.bt : Fq) * ((1 : ℕ) : Fq) = (C17.bx : Fq) * (C17.by' : Fq)
+    rw [Nat.cast_one, mul_one, h, cast_fmul]
+
+example : (Ext.doubleMin ⟨C17.bx, C17.by', 1, C17.bt⟩).Z ≠ 1 := by decide +kernel
+
+end C04
